@@ -66,6 +66,18 @@ def patch_timestamps(data, new_ns):
     return bytes(b)
 
 
+def swap_chunks(data, i, j):
+    """the same evtx bytes with the 64 KiB chunks i and j exchanged (a wrapped / recycled log: the
+    parser enumerates chunks in file order, so record ids are no longer ascending in enumeration
+    order); a chunk's checksums cover only its own bytes and stay valid"""
+    b = bytearray(data)
+    oi, oj = 4096 + 65536 * i, 4096 + 65536 * j
+    if oj + 65536 > len(b) or b[oi:oi + 8] != b"ElfChnk\x00" or b[oj:oj + 8] != b"ElfChnk\x00":
+        return None
+    b[oi:oi + 65536], b[oj:oj + 65536] = data[oj:oj + 65536], data[oi:oi + 65536]
+    return bytes(b)
+
+
 def pack(data, name, how):
     if how == "plain":
         return name, data
@@ -297,9 +309,29 @@ def run(ctx):
             for k in range(12):
                 m = rng.choice([2, 3, 10, 50, nrec])
                 variants.append(("random%d" % k, [t0 + 1000 * rng.randrange(0, m) for _ in range(nrec)]))
+    # enumeration order != record-id order: chunks exchanged, ties across and inside the exchanged chunks
+    swapped = {}
+    if nrec:
+        nchunks = (len(orig) - 4096) // 65536
+        pairs = [(a, b) for a in range(nchunks) for b in range(a + 1, nchunks)]
+        rng.shuffle(pairs)
+        for (a, b) in pairs[:1 if quick else 6]:
+            sw = swap_chunks(orig, a, b)
+            if sw is None or len(evtx_records(sw)) != nrec:
+                continue
+            for vl, ts in (("all_equal", [t0] * nrec), ("five_values", [t0 + 1000 * rng.randrange(0, 5) for _ in range(nrec)]),
+                           ("pairs", [t0 + 1000 * (i // 2) for i in range(nrec)])):
+                lab = "swap%d_%d_%s" % (a, b, vl)
+                variants.append((lab, ts))
+                swapped[lab] = sw
+        # records LATER than every container / file-system time the variants are stored with
+        tl = 1710000000000000000
+        variants.append(("late_pairs", [tl + 1000 * (i // 2) for i in range(nrec)]))
+        if not quick:
+            variants.append(("late_shuffled", [tl + 1000 * rng.randrange(0, nrec) for i in range(nrec)]))
     conts = ["plain", "gz", "xz", "tar", "bz2"]
     for k, (label, ts) in enumerate(variants):
-        blob = patch_timestamps(orig, ts)
+        blob = patch_timestamps(swapped.get(label, orig), ts)
         sub = os.path.join(d, label)
         os.makedirs(sub, exist_ok=True)
         pp = os.path.join(sub, "v.evtx")
@@ -313,6 +345,10 @@ def run(ctx):
         with open(os.path.join(cp, nm), "wb") as f:
             f.write(packed)
         files.append(dict(path=os.path.join(cp, nm), plain=pp, label=label, container=how))
+        if k % 2 == 1 or label.startswith("late"):
+            # an OLD modification time (restored / copied files): the window must look at the records, not at it
+            for q in (pp, os.path.join(cp, nm)):
+                os.utime(q, (1600000000, 1600000000))
     stats["files"] = len(files)
 
     # ---------------- independent dumps
@@ -457,7 +493,7 @@ def run(ctx):
         evaluations=len(seqs) + len(jobs) + len(bjobs), distinct_nontrivial=nt,
         rule="three kinds of case: (B1) synthetic enumerations of 0-200 (timestamp | undecodable) items in five orderings with a window, through the crate's map logic vs the model; "
              "(B2) EvtxReader in-process on a plain file with a window vs the model on the dump's enumeration; (C) the s4 binary on a file (fixture, shipped .gz/.bz2/.xz/.lz4/.tar copies, "
-             "NoEvents.evtx, and copies of the fixture whose record-header creation times were rewritten to produce ties / reversed / shuffled / seconds-only orders, plain and packed by python as gz/xz/tar/bz2) "
+             "NoEvents.evtx, and copies of the fixture whose record-header creation times were rewritten to produce ties / reversed / shuffled / seconds-only orders, also with two 64 KiB chunks exchanged (record ids not ascending in enumeration order) and with records later than the containers' and files' own modification times, plain and packed by python as gz/xz/tar/bz2) "
              "with a window whose bounds are mostly exactly record times, vs the Coq spec over the independent dump. non-trivial = at least two records kept and (a tie, or enumeration order different from time order, "
              "or a bound equal to a kept record's time); distinct by (input, window)",
         samples=[dict(kind="B1", after_ns=seqs[1][0], before_ns=seqs[1][1], enumeration=seqs[1][2][:12], ordering=seqs[1][3]),
@@ -486,10 +522,15 @@ def replay(ctx, path):
         p = c["file"]
         if not os.path.exists(p) and c.get("variant_timestamps_ns"):
             d = vlib.scratch_dir("C10")
-            blob = patch_timestamps(open(FIXTURE, "rb").read(), c["variant_timestamps_ns"])
+            base = open(FIXTURE, "rb").read()
+            msw = re.match(r"swap(\d+)_(\d+)_", c.get("variant") or "")
+            if msw:
+                base = swap_chunks(base, int(msw.group(1)), int(msw.group(2)))
+            blob = patch_timestamps(base, c["variant_timestamps_ns"])
             nm, packed = pack(blob, "v.evtx", c["container"] if c["container"] in ("plain", "gz", "xz", "tar", "bz2") else "plain")
             p = os.path.join(d, nm)
             open(p, "wb").write(packed)
+            os.utime(p, (1600000000, 1600000000))
         rc, out, err = run_binary((p, c["after_ns"], c["before_ns"]))
         recs, pp = parse_output(out)
         ids = [int(m.group(1)) for m in (re.search(r"<EventRecordID>(\d+)</EventRecordID>", x[1]) for x in recs) if m]
